@@ -108,7 +108,7 @@ CHECKS["C13"] = {
 CHECKS["C14"] = {
     "level": "exploration",
     "technique": "rapid-generated datagram write/deliver/read(buffer size)/close sequences on a real unordered Session pair over a test-owned network (synctest bubble); multiset reference model fed from the decoded wire tap",
-    "level_text": "Each read must return exactly one whole datagram that arrived on that stream and was not read before; short-buffer errors are only allowed (and required to leave the datagram intact) when a waiting datagram is larger than the buffer; accepted datagrams appear on the wire as exactly one frame, refused ones never; after the final drain every datagram of a still-open stream has been read exactly once. Datagrams enter through Write and through ReadFrom from a message-oriented source (the relay path), sizes 1..max with emphasis on the last 20 bytes below the maximum.",
+    "level_text": "Each read must return exactly one whole datagram that arrived on that stream and was not read before; short-buffer errors are only allowed (and required to leave the datagram intact) when a waiting datagram is larger than the buffer; accepted datagrams appear on the wire as exactly one frame, refused ones never; after the final drain every datagram of a still-open stream has been read exactly once. A real-time sub-check lets 2-6 streams send at the same time (Write and relay path, after a relay source handed over an empty datagram) over connections with small buffers; each reader must get exactly the multiset of its stream's datagrams. Datagrams enter through Write and through ReadFrom from a message-oriented source (the relay path), sizes 1..max with emphasis on the last 20 bytes below the maximum.",
     "level_note": "Arrival order across connections is serialised by the interpreter (one connection delivered at a time); no FIFO order between datagrams is demanded, only the multiset.",
     "rule": "rapid draws unordered config (method, 1..8 conns or singleplex) and <=60 ops over 1..4 streams: datagram sizes 1..max and max+1,max+2,2*max; read buffers = size-1/size/size+1 of datagrams in flight or huge; closes. Non-trivial = a short-buffer read occurred, or >=2 streams shared a connection, or a frame overtook a lower one across connections; distinct = distinct scenarios.",
     "assumptions": ["network delivers each record exactly once"],
@@ -150,7 +150,7 @@ CHECKS["C11"] = {
 CHECKS["C20"] = {
     "level": "exploration",
     "technique": "rapid-generated option presence masks and values rendered both as JSON file and as key=value; string (with the \\= escapes of plugin hosts); oracle = table transcribed from README.md + cross-syntax equality; random strings for the no-crash part",
-    "level_text": "Each generated configuration is parsed through both front ends (results must be equal) and processed; every documented option (NumConn<=0, KeepAlive seconds, StreamTimeout default, Transport/BrowserSig selection observed through the transport actually created, CDN url, AlternativeNames filtering, encryption names) is compared with an independent transcription of the README; incomplete/invalid configurations must yield an error, arbitrary strings must not panic. StreamTimeout is also checked in effect on the virtual clock: the value parsed from either syntax is handed to RouteTCP over a test network; a proxy connection whose first data comes before the limit must stay usable in both directions at any later time (up to 5x the period), one that stays silent longer must be closed.",
+    "level_text": "Each generated configuration is parsed through both front ends (results must be equal) and processed; every documented option (NumConn<=0, KeepAlive seconds, StreamTimeout default, Transport/BrowserSig selection observed through the transport actually created, CDN url, AlternativeNames filtering, encryption names) is compared with an independent transcription of the README; incomplete/invalid configurations must yield an error, arbitrary strings must not panic. BrowserSig is checked in effect on every connection attempt of sessions set up under connection faults (each ClientHello must have the shape of a fresh hello of the configured browser; a failed chrome attempt may be retried as firefox, as the client documents). StreamTimeout is also checked in effect on the virtual clock: the value parsed from either syntax is handed to RouteTCP over a test network; a proxy connection whose first data comes before the limit must stay usable in both directions at any later time (up to 5x the period), one that stays silent longer must be closed.",
     "level_note": "The README transcription in harness/internal__client/c20_test.go (c20Table) is the trusted oracle; values containing ';', '\"' or '\\\\' are outside the option-string domain (the front end has no escaping for them once unescaped) and are not generated.",
     "rule": "rapid draws presence (p=0.4..0.95 per option) and representative values for the 19 options incl. NumConn in {-7,-1,0,1,2,4,8}, KeepAlive in {-5,0,1,15,30,3600}, mixed-case names, base64 keys with '=' padding, empty alternative names; every case is non-trivial (both syntaxes + processing); distinct = distinct (presence mask, escaping) pairs.",
     "assumptions": ["README.md client section is the specification"],
@@ -165,7 +165,7 @@ CHECKS["C20"] = {
 CHECKS["C18"] = {
     "level": "exploration",
     "technique": "model-based testing: rapid-generated admin-API operation sequences (POST with any subset of fields and extreme values, malformed/mismatching requests, GET, list, DELETE, close/reopen, owner connects, usage upload) against a real bolt-backed manager; in-memory reference map compared through GET and list after every step",
-    "level_text": "After every operation each of the 4 UIDs is read back through GET and through the listing and compared field by field with the reference map (unset fields read as 0/null, rejected requests - UID mismatch, syntax errors, bad URL, empty body, and nine kinds of well-formed but ill-typed values - change nothing, deleted users are gone, state survives reopen); connect (userPanel.GetUser + GetSession) and usage upload (Manager.UploadStatus and userPanel.commitUpdate) are executed exactly as the server's goroutines call them, and a panic in Cloak code is a violation.",
+    "level_text": "After every operation each of the 4 UIDs is read back through GET and through the listing and compared field by field with the reference map (overlapping operations: 2-4 POST/DELETE/usage-upload calls issued at once on one user must leave a record equal to the outcome of some sequential order of them, also after reopen; unset fields read as 0/null, rejected requests - UID mismatch, syntax errors, bad URL, empty body, and nine kinds of well-formed but ill-typed values - change nothing, deleted users are gone, state survives reopen); connect (userPanel.GetUser + GetSession) and usage upload (Manager.UploadStatus and userPanel.commitUpdate) are executed exactly as the server's goroutines call them, and a panic in Cloak code is a violation.",
     "level_note": "Crash points inside a bolt transaction are not injected (bolt's own durability is trusted); the API is driven through APIRouter.ServeHTTP rather than through a tunnelled HTTP connection (that path is exercised in C07's admin-gate check).",
     "rule": "rapid draws <=14 ops over 4 UIDs; values from {0,1,-1,2,100,2^31,-2^31,2^63-1,-2^63,now+-1,2^40} and [-1000,100000]; non-trivial = the sequence contains a partial update, a rejected request or a reopen; distinct = distinct scenarios.",
     "assumptions": ["bbolt commits are atomic and durable"],
